@@ -40,6 +40,7 @@ restore_placement reports every instance it put back. Fourth round: C01.3 the
 one place outside Server.remove that clears app.server does so only for a
 server missing from the cell's map; C01.9 also covers the reload of a replaced
 server (shared with C09.4).
+Sweep: C01.8 remove_all takes every instance off through Server.remove (capacity and affinity counters follow).
 Does NOT decide the arithmetic identity free = capacity - sum(demand) over
 histories nor value-level behaviour of the unit parsers.
 """
